@@ -171,6 +171,41 @@ Qed.
 
 End AttrsProofs.
 
+(* ---- reading the attributes ---- *)
+Lemma read_all_cons {payload} (r : reading payload) rs :
+  read_all (r :: rs) = bind (read_one r) (fun a => bind (read_all rs) (fun t => Ok (a :: t))).
+Proof. reflexivity. Qed.
+
+Lemma read_all_ok {payload} (rs : list (reading payload)) :
+  readers_ok rs = true -> exists l, read_all rs = Ok l /\ map a_name l = map (fun r => fst (fst r)) rs.
+Proof.
+  induction rs as [|[[n [v|]] d] rs IH]; intros H.
+  - now exists [].
+  - cbn [readers_ok forallb fst snd andb] in H. destruct (IH H) as (l & Hl & Hn).
+    exists (mkattr n v d :: l). rewrite read_all_cons. unfold read_one. cbn [fst snd bind]. rewrite Hl. cbn [bind].
+    split; [reflexivity|]. cbn [map a_name fst]. now rewrite Hn.
+  - discriminate.
+Qed.
+
+Lemma read_all_err {payload} (rs : list (reading payload)) :
+  readers_ok rs = false -> read_all rs = Err.
+Proof.
+  induction rs as [|[[n [v|]] d] rs IH]; intros H.
+  - discriminate.
+  - cbn [readers_ok forallb fst snd andb] in H. rewrite read_all_cons. unfold read_one. cbn [fst snd bind].
+    now rewrite (IH H).
+  - reflexivity.
+Qed.
+
+Theorem attr_route_serialize_ok {payload} (to_s : str -> payload -> str) o c id ty req (rs : list (reading payload)) disp :
+  readers_ok rs = true ->
+  exists l, read_all rs = Ok l /\
+            attr_route_serialize to_s o c id ty req rs disp = Ok (serialize to_s o c (VObjT id ty req l disp)).
+Proof.
+  intros H. destruct (read_all_ok rs H) as (l & Hl & _). exists l. split; [exact Hl|].
+  unfold attr_route_serialize. now rewrite Hl.
+Qed.
+
 (* ---- end to end: serialize, collect, deserialize, construct from the attribute hash ---- *)
 Theorem attr_route_roundtrip {payload} (to_s : str -> payload -> str) (of_s : str -> str -> option payload) :
   (forall tn p, of_s tn (to_s tn p) = Some p) ->
